@@ -119,6 +119,8 @@ def fe51_op(it, p):
 
 
 TARGETS = [
+    dict(name="x25519-ladder-rfc7748", ladder=True, params=[{}]),
+    dict(name="x25519-invert", ladder=True, params=[{}]),
     dict(name="fe25519-51-x25519", units=["crypto_scalarmult/curve25519/ref10/x25519_ref10.c", "sodium/utils.c"], cflags=["-fno-inline-functions"], run=fe51_op,
          params=[{"op": "mul"}, {"op": "sq"}, {"op": "mul32", "n": 121666, "out": (1 << 52) - 1},
                  {"op": "add", "in": (1 << 62) - 1, "out": (1 << 63) - 2}, {"op": "sub", "in": (1 << 53) - 1, "out": FE_IN}]),
@@ -186,6 +188,13 @@ def run_one(tname, pidx, workroot):
     p = t["params"][pidx]
     res = {"target": tname, "params": p, "status": "inconclusive", "detail": "", "wall_s": 0.0}
     t0 = time.time()
+    if t.get("ladder"):
+        from . import ladder
+        r = ladder.run(tname, workroot)
+        r["params"] = p
+        r["claim"] = ("X25519 ladder of the unit == RFC 7748 section 5 for all scalars and u (inductive over the loop, ring operations)"
+                      if tname.startswith("x25519-ladder") else "fe25519_invert(z) == z^(p-2)")
+        return r
     try:
         wd = os.path.join(workroot, "limb-" + tname)
         ll = os.path.join(wd, "linked.ll")
@@ -233,6 +242,11 @@ def run_one(tname, pidx, workroot):
 
 def replay(tname, pidx, workroot, assign_path):
     t = [x for x in TARGETS if x["name"] == tname][0]
+    if t.get("ladder"):
+        from . import ladder
+        r = ladder.run(tname, workroot)
+        print(("REPLAY-FAIL: " if r["status"] == "violation" else "REPLAY-END-REACHED: ") + (r["detail"] or r["status"]))
+        return 1 if r["status"] == "violation" else 0
     p = t["params"][pidx]
     wd = os.path.join(workroot, "limb-" + tname)
     ll = os.path.join(wd, "linked.ll")
